@@ -17,6 +17,7 @@
      ample    - the history cannot evict or reject for capacity (total cost fits in MaxCost)
      ref      - single client, ample: results are also judged against the reference map (C06/C07)
      coll     - some live keys may collide on the primary hash (C13/C17 clauses are skipped)
+     cb       - the user callbacks are configured (without them the callback rules have nothing to read)
 *)
 \* (l and lastEv are advanced by Next for every event)
 \* FRAME-EXCLUDE: l, lastEv
@@ -47,13 +48,19 @@ VARIABLES
   getsAll,                    \* Gets since creation
   raised,                     \* C03: a later Set of a key carried a higher cost / MaxCost lowered
   maxMax,                     \* largest MaxCost seen
+  keysSeen,                   \* keys written or deleted so far
+  begunN, runN,               \* key -> number of Sets and Dels begun so far / in progress
+  exitDue,                    \* key -> {<<value, begunN at DelBegin>>}: values a completed Del obliges to have exited
+  mcOpen, mcN,                \* UpdateMaxCost calls in progress / begun so far
+  clrDirty,                   \* some other call overlapped the Clear/Close in progress
+  clrN,                       \* number of Clear/Close begin and end events so far (to detect overlap with a Clear)
   lateAdd,                    \* hashes for which an insert was applied after its own TTL had elapsed (signature of F5)
   lastEv,                     \* name of the previous event
   polCur                      \* C09: the policy decision being recorded
 
 vars == <<l, tid, cfg, bad, vkey, vcost, vttl, vtb, vte, accepted, refused, exitN, evictN, rejectN,
           exitedAt, pendCb, getSnap, ended, delBefore, cand, waitCov, dead, owed, inClear, clearEver,
-          closed, openCalls, getsN, dropsN, getsAll, raised, maxMax, lateAdd, lastEv, polCur>>
+          closed, openCalls, getsN, dropsN, getsAll, raised, maxMax, keysSeen, begunN, runN, exitDue, mcOpen, mcN, clrDirty, clrN, lateAdd, lastEv, polCur>>
 
 Empty == <<>>                                  \* the empty function
 Get0(f, x) == IF x \in DOMAIN f THEN f[x] ELSE 0
@@ -62,9 +69,9 @@ Put(f, x, v) == [y \in DOMAIN f \cup {x} |-> IF y = x THEN v ELSE f[y]]
 ToSet(s) == {s[i] : i \in DOMAIN s}
 FlagS(p, cond, why, sig) == IF cond THEN {} ELSE {[p |-> p, at |-> l, trace |-> tid, why |-> why, sig |-> sig]}
 Flag(p, cond, why) == FlagS(p, cond, why, "")
-NoPol == [h |-> 0]
+NoPol == [h |-> 0, mc |-> -1]
 DefaultCfg == [ample |-> FALSE, ref |-> FALSE, coll |-> FALSE, maxCost |-> 0, itemSize |-> 0,
-               costFn |-> 0, hashOf |-> <<>>, confOf |-> <<>>, metrics |-> FALSE]
+               costFn |-> 0, hashOf |-> <<>>, confOf |-> <<>>, metrics |-> FALSE, cb |-> TRUE]
 
 Init ==
   /\ l = 1 /\ tid = 0 /\ cfg = DefaultCfg /\ bad = {}
@@ -73,23 +80,24 @@ Init ==
   /\ exitedAt = {} /\ pendCb = Empty /\ getSnap = Empty /\ ended = Empty /\ delBefore = Empty
   /\ cand = Empty /\ waitCov = Empty /\ dead = Empty /\ owed = Empty /\ inClear = 0
   /\ clearEver = FALSE /\ closed = FALSE /\ openCalls = 0 /\ getsN = 0 /\ dropsN = 0 /\ getsAll = 0
-  /\ raised = FALSE /\ maxMax = 0 /\ lateAdd = {} /\ lastEv = "none" /\ polCur = NoPol
+  /\ raised = FALSE /\ maxMax = 0 /\ keysSeen = {} /\ begunN = Empty /\ runN = Empty /\ exitDue = Empty /\ mcOpen = 0 /\ mcN = 0 /\ clrDirty = FALSE /\ clrN = 0 /\ lateAdd = {} /\ lastEv = "none" /\ polCur = NoPol
 
 \* effective cost of a value as the policy sees it
-EffCost(v) == (IF vcost[v] = 0 /\ cfg.costFn # 0 THEN cfg.costFn ELSE vcost[v]) + cfg.itemSize
+EffC(cost) == IF cost = 0 /\ cfg.costFn # 0 THEN cfg.costFn ELSE cost
+EffCost(v) == EffC(vcost[v]) + cfg.itemSize
 HashOfK(k) == cfg.hashOf[k]
 ConfOfK(k) == cfg.confOf[k]
 
 Reset(e) ==
   /\ tid' = e.t
   /\ cfg' = [ample |-> e.ample, ref |-> e.ref, coll |-> e.coll, maxCost |-> e.maxCost, itemSize |-> e.itemSize,
-             costFn |-> e.costFn, hashOf |-> e.hashOf, confOf |-> e.confOf, metrics |-> e.metrics]
+             costFn |-> e.costFn, hashOf |-> e.hashOf, confOf |-> e.confOf, metrics |-> e.metrics, cb |-> e.cb]
   /\ vkey' = Empty /\ vcost' = Empty /\ vttl' = Empty /\ vtb' = Empty /\ vte' = Empty
   /\ accepted' = {} /\ refused' = {} /\ exitN' = Empty /\ evictN' = Empty /\ rejectN' = Empty
   /\ exitedAt' = {} /\ pendCb' = Empty /\ getSnap' = Empty /\ ended' = Empty /\ delBefore' = Empty
   /\ cand' = Empty /\ waitCov' = Empty /\ dead' = Empty /\ owed' = Empty /\ inClear' = 0
   /\ clearEver' = FALSE /\ closed' = FALSE /\ openCalls' = 0 /\ getsN' = 0 /\ dropsN' = 0 /\ getsAll' = 0
-  /\ raised' = FALSE /\ maxMax' = e.maxCost /\ lateAdd' = {} /\ polCur' = NoPol
+  /\ raised' = FALSE /\ maxMax' = e.maxCost /\ keysSeen' = {} /\ begunN' = Empty /\ runN' = Empty /\ exitDue' = Empty /\ mcOpen' = 0 /\ mcN' = 0 /\ clrDirty' = FALSE /\ clrN' = 0 /\ lateAdd' = {} /\ polCur' = NoPol
   \* pending callbacks of the previous trace must have been completed
   /\ bad' = bad \cup Flag("C04", \A g \in DOMAIN pendCb : pendCb[g] = 0, "OnEvict/OnReject not followed by OnExit of the same value")
 
@@ -104,20 +112,26 @@ Step(e) ==
   CASE e.ev = "New" -> Reset(e)
 
     [] e.ev = "SetBegin" ->
+         /\ clrDirty' = (clrDirty \/ inClear > 0)
          /\ vkey' = Put(vkey, e.v, e.k) /\ vcost' = Put(vcost, e.v, e.cost) /\ vttl' = Put(vttl, e.v, e.ttl)
-         /\ vtb' = Put(vtb, e.v, e.t) /\ vte' = Put(vte, e.v, -1)
-         /\ raised' = (raised \/ \E u \in DOMAIN vkey : vkey[u] = e.k /\ vcost[u] < e.cost)
+         /\ vtb' = Put(vtb, e.v, e.t) /\ vte' = Put(vte, e.v, -1) /\ keysSeen' = keysSeen \cup {e.k}
+         /\ begunN' = Put(begunN, e.k, Get0(begunN, e.k) + 1) /\ runN' = Put(runN, e.k, Get0(runN, e.k) + 1)
+         \* a cost-raising overwrite: an earlier Set of the key carried a lower cost, or a Set of the key that is
+         \* still in progress (and may be applied after this one) carries a higher cost
+         /\ raised' = (raised \/ \E u \in DOMAIN vkey : vkey[u] = e.k /\
+                                     (EffC(vcost[u]) < EffC(e.cost) \/ (EffC(vcost[u]) > EffC(e.cost) /\ vte[u] < 0)))
          /\ openCalls' = openCalls + 1
          /\ clearEver' = (clearEver \/ inClear > 0)
          /\ UNCHANGED <<tid, cfg, bad, accepted, refused, exitN, evictN, rejectN, exitedAt, pendCb, getSnap, 
                  ended, delBefore, cand, waitCov, dead, owed, inClear, closed, getsN, dropsN, getsAll, 
-                 maxMax, lateAdd, polCur>>
+                 maxMax, exitDue, mcOpen, mcN, clrN, lateAdd, polCur>>
 
     [] e.ev = "SetEnd" ->
          /\ vte' = Put(vte, e.v, e.t)
          /\ IF e.ok THEN accepted' = accepted \cup {e.v} /\ UNCHANGED refused
                     ELSE refused' = refused \cup {e.v} /\ UNCHANGED accepted
          /\ ended' = Put(ended, e.k, GetS(ended, e.k) \cup {e.v})
+         /\ runN' = Put(runN, e.k, Get0(runN, e.k) - 1)
          /\ dropsN' = IF ~e.ok /\ vttl[e.v] >= 0 /\ ~closed THEN dropsN + 1 ELSE dropsN
          /\ openCalls' = openCalls - 1
          /\ bad' = bad \cup Flag("C04", e.ok \/ (Get0(exitN, e.v) = 0 /\ Get0(evictN, e.v) = 0 /\ Get0(rejectN, e.v) = 0),
@@ -126,49 +140,74 @@ Step(e) ==
                        \cup Flag("C15", ~closed \/ ~e.ok, "Set on a closed cache returned true")
          /\ UNCHANGED <<tid, cfg, vkey, vcost, vttl, vtb, exitN, evictN, rejectN, exitedAt, pendCb, getSnap, 
                  delBefore, cand, waitCov, dead, owed, inClear, clearEver, closed, getsN, getsAll, raised, 
-                 maxMax, lateAdd, polCur>>
+                 maxMax, keysSeen, begunN, exitDue, mcOpen, mcN, clrDirty, clrN, lateAdd, polCur>>
 
     [] e.ev = "DelBegin" ->
-         /\ delBefore' = Put(delBefore, e.c, [k |-> e.k, vals |-> GetS(ended, e.k)])
+         /\ clrDirty' = (clrDirty \/ inClear > 0)
+         /\ keysSeen' = keysSeen \cup {e.k}
+         /\ begunN' = Put(begunN, e.k, Get0(begunN, e.k) + 1) /\ runN' = Put(runN, e.k, Get0(runN, e.k) + 1)
+         /\ delBefore' = Put(delBefore, e.c, [k |-> e.k, vals |-> GetS(ended, e.k), clr |-> clrN, free |-> inClear = 0,
+                                               \* the exit obligation exists only if no other Set or Del of the key is in progress (a
+                                               \* concurrent overwrite or delete may still owe its OnExit callback) ...
+                                               due |-> IF Get0(runN, e.k) = 0 THEN GetS(ended, e.k) ELSE {}, seq |-> Get0(begunN, e.k) + 1])
          /\ openCalls' = openCalls + 1
          /\ clearEver' = (clearEver \/ inClear > 0)
          /\ UNCHANGED <<tid, cfg, bad, vkey, vcost, vttl, vtb, vte, accepted, refused, exitN, evictN, rejectN, 
                  exitedAt, pendCb, getSnap, ended, cand, waitCov, dead, owed, inClear, closed, getsN, 
-                 dropsN, getsAll, raised, maxMax, lateAdd, polCur>>
+                 dropsN, getsAll, raised, maxMax, exitDue, mcOpen, mcN, clrN, lateAdd, polCur>>
 
     [] e.ev = "DelEnd" ->
-         /\ cand' = IF closed THEN cand
+         \* a Del that overlapped a Clear creates no obligation (Clear is not atomic w.r.t. other calls)
+         /\ runN' = Put(runN, e.k, Get0(runN, e.k) - 1)
+         /\ cand' = IF closed \/ ~delBefore[e.c].free \/ delBefore[e.c].clr # clrN THEN cand
                     ELSE Put(cand, e.k, GetS(cand, e.k) \cup delBefore[e.c].vals)
+         /\ exitDue' = IF closed \/ ~delBefore[e.c].free \/ delBefore[e.c].clr # clrN THEN exitDue
+                       ELSE Put(exitDue, e.k, GetS(exitDue, e.k) \cup {<<v, delBefore[e.c].seq>> : v \in delBefore[e.c].due})
          /\ openCalls' = openCalls - 1
          /\ UNCHANGED <<tid, cfg, bad, vkey, vcost, vttl, vtb, vte, accepted, refused, exitN, evictN, rejectN, 
                  exitedAt, pendCb, getSnap, ended, delBefore, waitCov, dead, owed, inClear, clearEver, 
-                 closed, getsN, dropsN, getsAll, raised, maxMax, lateAdd, polCur>>
+                 closed, getsN, dropsN, getsAll, raised, maxMax, keysSeen, begunN, mcOpen, mcN, clrDirty, 
+                 clrN, lateAdd, polCur>>
 
     [] e.ev = "WaitBegin" ->
-         /\ waitCov' = Put(waitCov, e.c, cand)
+         /\ clrDirty' = (clrDirty \/ inClear > 0)
+         /\ waitCov' = Put(waitCov, e.c, [cand |-> cand, due |-> exitDue, clr |-> clrN, free |-> inClear = 0])
          /\ openCalls' = openCalls + 1
          /\ clearEver' = (clearEver \/ inClear > 0)
          /\ UNCHANGED <<tid, cfg, bad, vkey, vcost, vttl, vtb, vte, accepted, refused, exitN, evictN, rejectN, 
                  exitedAt, pendCb, getSnap, ended, delBefore, cand, dead, owed, inClear, closed, getsN, 
-                 dropsN, getsAll, raised, maxMax, lateAdd, polCur>>
+                 dropsN, getsAll, raised, maxMax, keysSeen, begunN, runN, exitDue, mcOpen, mcN, clrN, 
+                 lateAdd, polCur>>
 
     [] e.ev = "WaitEnd" ->
-         LET cov == waitCov[e.c] IN
+         \* a Wait that overlapped a Clear may have been released by Clear's drain: no guarantee then
+         LET ok == waitCov[e.c].free /\ waitCov[e.c].clr = clrN /\ ~closed
+             cov == IF ok THEN waitCov[e.c].cand ELSE Empty IN
          /\ dead' = [k \in DOMAIN dead \cup DOMAIN cov |-> GetS(dead, k) \cup GetS(cov, k)]
          /\ openCalls' = openCalls - 1
-         /\ bad' = bad \cup Flag("C05", closed \/ \A k \in DOMAIN cov : \A v \in cov[k] \cap accepted : Get0(exitN, v) = 1,
-                                 "a value deleted by a completed Del was not released through OnExit by the next Wait")
+         /\ bad' = bad \cup FlagS("C05", ~cfg.cb \/ ~ok \/
+                                   \A k \in DOMAIN waitCov[e.c].due : \A p \in waitCov[e.c].due[k] :
+                                      (p[2] = Get0(begunN, k) /\ p[1] \in accepted) => Get0(exitN, p[1]) = 1,
+                                 "a value deleted by a completed Del was not released through OnExit by the next Wait",
+                                 \* F9: the unreleased values belong to keys that share their primary hash with another key
+                                 IF \A k \in DOMAIN waitCov[e.c].due : \A p \in waitCov[e.c].due[k] :
+                                      (p[2] = Get0(begunN, k) /\ p[1] \in accepted /\ Get0(exitN, p[1]) # 1)
+                                        => \E k2 \in keysSeen : k2 # k /\ HashOfK(k2) = HashOfK(k)
+                                   THEN "F9" ELSE "")
          /\ UNCHANGED <<tid, cfg, vkey, vcost, vttl, vtb, vte, accepted, refused, exitN, evictN, rejectN, 
                  exitedAt, pendCb, getSnap, ended, delBefore, cand, waitCov, owed, inClear, clearEver, 
-                 closed, getsN, dropsN, getsAll, raised, maxMax, lateAdd, polCur>>
+                 closed, getsN, dropsN, getsAll, raised, maxMax, keysSeen, begunN, runN, exitDue, mcOpen, 
+                 mcN, clrDirty, clrN, lateAdd, polCur>>
 
     [] e.ev = "GetBegin" ->
+         /\ clrDirty' = (clrDirty \/ inClear > 0)
          /\ getSnap' = Put(getSnap, e.c, [exited |-> exitedAt, dead |-> GetS(dead, e.k), t |-> e.t])
          /\ openCalls' = openCalls + 1
          /\ clearEver' = (clearEver \/ inClear > 0)
          /\ UNCHANGED <<tid, cfg, bad, vkey, vcost, vttl, vtb, vte, accepted, refused, exitN, evictN, rejectN, 
                  exitedAt, pendCb, ended, delBefore, cand, waitCov, dead, owed, inClear, closed, getsN, 
-                 dropsN, getsAll, raised, maxMax, lateAdd, polCur>>
+                 dropsN, getsAll, raised, maxMax, keysSeen, begunN, runN, exitDue, mcOpen, mcN, clrN, 
+                 lateAdd, polCur>>
 
     [] e.ev = "GetEnd" ->
          LET s == getSnap[e.c]  v == e.v IN
@@ -188,13 +227,15 @@ Step(e) ==
               \cup Flag("C15", ~closed \/ ~e.found, "Get on a closed cache returned a value")
          /\ UNCHANGED <<tid, cfg, vkey, vcost, vttl, vtb, vte, accepted, refused, exitN, evictN, rejectN, 
                  exitedAt, pendCb, getSnap, ended, delBefore, cand, waitCov, dead, owed, inClear, 
-                 clearEver, closed, dropsN, raised, maxMax, lateAdd, polCur>>
+                 clearEver, closed, dropsN, raised, maxMax, keysSeen, begunN, runN, exitDue, mcOpen, mcN, 
+                 clrDirty, clrN, lateAdd, polCur>>
 
     [] e.ev = "TTLBegin" ->
          /\ openCalls' = openCalls + 1
          /\ UNCHANGED <<tid, cfg, bad, vkey, vcost, vttl, vtb, vte, accepted, refused, exitN, evictN, rejectN, 
                  exitedAt, pendCb, getSnap, ended, delBefore, cand, waitCov, dead, owed, inClear, 
-                 clearEver, closed, getsN, dropsN, getsAll, raised, maxMax, lateAdd, polCur>>
+                 clearEver, closed, getsN, dropsN, getsAll, raised, maxMax, keysSeen, begunN, runN, 
+                 exitDue, mcOpen, mcN, clrDirty, clrN, lateAdd, polCur>>
 
     [] e.ev = "TTLEnd" ->
          /\ openCalls' = openCalls - 1
@@ -204,7 +245,8 @@ Step(e) ==
                                  "GetTTL reported more remaining time than any ttl given for the key")
          /\ UNCHANGED <<tid, cfg, vkey, vcost, vttl, vtb, vte, accepted, refused, exitN, evictN, rejectN, 
                  exitedAt, pendCb, getSnap, ended, delBefore, cand, waitCov, dead, owed, inClear, 
-                 clearEver, closed, getsN, dropsN, getsAll, raised, maxMax, lateAdd, polCur>>
+                 clearEver, closed, getsN, dropsN, getsAll, raised, maxMax, keysSeen, begunN, runN, 
+                 exitDue, mcOpen, mcN, clrDirty, clrN, lateAdd, polCur>>
 
     [] e.ev \in {"IterBegin", "IterEnd"} ->
          /\ openCalls' = IF e.ev = "IterBegin" THEN openCalls + 1 ELSE openCalls - 1
@@ -214,35 +256,52 @@ Step(e) ==
                             \cup Flag("C15", ~closed \/ Len(e.vals) = 0, "IterValues on a closed cache yielded values")
          /\ UNCHANGED <<tid, cfg, vkey, vcost, vttl, vtb, vte, accepted, refused, exitN, evictN, rejectN, 
                  exitedAt, pendCb, getSnap, ended, delBefore, cand, waitCov, dead, owed, inClear, 
-                 clearEver, closed, getsN, dropsN, getsAll, raised, maxMax, lateAdd, polCur>>
+                 clearEver, closed, getsN, dropsN, getsAll, raised, maxMax, keysSeen, begunN, runN, 
+                 exitDue, mcOpen, mcN, clrDirty, clrN, lateAdd, polCur>>
+
+    [] e.ev = "MaxCostBegin" ->
+         /\ mcOpen' = mcOpen + 1 /\ mcN' = mcN + 1
+         /\ UNCHANGED <<tid, cfg, bad, vkey, vcost, vttl, vtb, vte, accepted, refused, exitN, evictN, rejectN, 
+                 exitedAt, pendCb, getSnap, ended, delBefore, cand, waitCov, dead, owed, inClear, 
+                 clearEver, closed, openCalls, getsN, dropsN, getsAll, raised, maxMax, keysSeen, begunN, 
+                 runN, exitDue, clrDirty, clrN, lateAdd, polCur>>
 
     [] e.ev = "MaxCost" ->
+         /\ mcOpen' = mcOpen - 1
          /\ raised' = (raised \/ e.m < maxMax)      \* conservative: any value below the largest seen counts as lowering
          /\ maxMax' = IF e.m > maxMax THEN e.m ELSE maxMax
          /\ UNCHANGED <<tid, cfg, bad, vkey, vcost, vttl, vtb, vte, accepted, refused, exitN, evictN, rejectN, 
                  exitedAt, pendCb, getSnap, ended, delBefore, cand, waitCov, dead, owed, inClear, 
-                 clearEver, closed, openCalls, getsN, dropsN, getsAll, lateAdd, polCur>>
+                 clearEver, closed, openCalls, getsN, dropsN, getsAll, keysSeen, begunN, runN, exitDue, 
+                 mcN, clrDirty, clrN, lateAdd, polCur>>
 
     [] e.ev \in {"ClearBegin", "CloseBegin"} ->
          /\ owed' = Put(owed, e.c, {v \in accepted : Get0(exitN, v) = 0})
-         /\ inClear' = inClear + 1
+         /\ inClear' = inClear + 1 /\ clrN' = clrN + 1
+         /\ clrDirty' = IF inClear = 0 THEN openCalls > 0 ELSE TRUE
          /\ clearEver' = (clearEver \/ openCalls > 0)
          /\ openCalls' = openCalls + 1
          /\ UNCHANGED <<tid, cfg, bad, vkey, vcost, vttl, vtb, vte, accepted, refused, exitN, evictN, rejectN, 
                  exitedAt, pendCb, getSnap, ended, delBefore, cand, waitCov, dead, closed, getsN, dropsN, 
-                 getsAll, raised, maxMax, lateAdd, polCur>>
+                 getsAll, raised, maxMax, keysSeen, begunN, runN, exitDue, mcOpen, mcN, lateAdd, polCur>>
 
     [] e.ev \in {"ClearEnd", "CloseEnd"} ->
-         /\ inClear' = inClear - 1
+         /\ inClear' = inClear - 1 /\ clrN' = clrN + 1
          /\ openCalls' = openCalls - 1
          /\ closed' = (closed \/ e.ev = "CloseEnd")
          /\ getsN' = IF closed THEN getsN ELSE 0
          /\ dropsN' = IF closed THEN dropsN ELSE 0
-         /\ bad' = bad \cup Flag("C04", closed \/ \A v \in owed[e.c] : Get0(exitN, v) = 1,
-                                 "a value accepted before Clear/Close was not passed to OnExit exactly once by its return")
+         /\ bad' = bad \cup FlagS("C04", closed \/ ~cfg.cb \/ clrDirty \/ \A v \in owed[e.c] : Get0(exitN, v) = 1,
+                                 "a value accepted before Clear/Close was not passed to OnExit exactly once by its return",
+                                 \* signature of F9: every leaked value was written under a key that shares its primary
+                                 \* hash with a different key written or deleted in the same history
+                                 IF \A v \in owed[e.c] : Get0(exitN, v) = 1 \/
+                                       \E k2 \in keysSeen : k2 # vkey[v] /\ HashOfK(k2) = HashOfK(vkey[v])
+                                   THEN "F9" ELSE "")
          /\ UNCHANGED <<tid, cfg, vkey, vcost, vttl, vtb, vte, accepted, refused, exitN, evictN, rejectN, 
                  exitedAt, pendCb, getSnap, ended, delBefore, cand, waitCov, dead, owed, clearEver, 
-                 getsAll, raised, maxMax, lateAdd, polCur>>
+                 getsAll, raised, maxMax, keysSeen, begunN, runN, exitDue, mcOpen, mcN, clrDirty, lateAdd, 
+                 polCur>>
 
     [] e.ev = "Exit" ->
          /\ exitN' = Put(exitN, e.v, Get0(exitN, e.v) + 1)
@@ -253,7 +312,8 @@ Step(e) ==
                        \cup Flag("C04", Get0(pendCb, e.g) \in {0, e.v}, "OnEvict/OnReject not followed by OnExit of the same value")
          /\ UNCHANGED <<tid, cfg, vkey, vcost, vttl, vtb, vte, accepted, refused, evictN, rejectN, getSnap, 
                  ended, delBefore, cand, waitCov, dead, owed, inClear, clearEver, closed, openCalls, 
-                 getsN, dropsN, getsAll, raised, maxMax, lateAdd, polCur>>
+                 getsN, dropsN, getsAll, raised, maxMax, keysSeen, begunN, runN, exitDue, mcOpen, mcN, 
+                 clrDirty, clrN, lateAdd, polCur>>
 
     [] e.ev \in {"Evict", "Reject"} ->
          /\ IF e.ev = "Evict" THEN evictN' = Put(evictN, e.v, Get0(evictN, e.v) + 1) /\ UNCHANGED rejectN
@@ -278,11 +338,13 @@ Step(e) ==
                                    THEN "F4" ELSE "")
          /\ UNCHANGED <<tid, cfg, vkey, vcost, vttl, vtb, vte, accepted, refused, exitN, exitedAt, getSnap, 
                  ended, delBefore, cand, waitCov, dead, owed, inClear, clearEver, closed, openCalls, 
-                 getsN, dropsN, getsAll, raised, maxMax, lateAdd, polCur>>
+                 getsN, dropsN, getsAll, raised, maxMax, keysSeen, begunN, runN, exitDue, mcOpen, mcN, 
+                 clrDirty, clrN, lateAdd, polCur>>
 
     [] e.ev = "Tick" -> UNCHANGED <<tid, cfg, bad, vkey, vcost, vttl, vtb, vte, accepted, refused, exitN, evictN, rejectN, 
                  exitedAt, pendCb, getSnap, ended, delBefore, cand, waitCov, dead, owed, inClear, 
-                 clearEver, closed, openCalls, getsN, dropsN, getsAll, raised, maxMax, lateAdd, polCur>>
+                 clearEver, closed, openCalls, getsN, dropsN, getsAll, raised, maxMax, keysSeen, begunN, 
+                 runN, exitDue, mcOpen, mcN, clrDirty, clrN, lateAdd, polCur>>
 
     [] e.ev = "Quiesce" ->
          LET probeVals == {e.probe[i][2] : i \in DOMAIN e.probe} \ {0}
@@ -302,10 +364,10 @@ Step(e) ==
               \cup Flag("C13", Len(e.storekeys) # 0 \/ Len(e.polkeys) # 0 \/ (e.remaining = e.maxcost /\ Len(e.iter) = 0),
                                "empty cache does not report its full capacity")
               \* C14: eventually reclaimed, once
-              \cup FlagS("C14", ~e.final \/ \A v \in expiredLong : Get0(exitN, v) = 1,
+              \cup FlagS("C14", ~e.final \/ ~cfg.cb \/ \A v \in expiredLong : Get0(exitN, v) = 1,
                                "an entry whose TTL elapsed long ago was never released through OnExit",
                                IF \A v \in expiredLong : Get0(exitN, v) = 1 \/ HashOfK(vkey[v]) \in lateAdd THEN "F5" ELSE "")
-              \cup Flag("C14", ~e.final \/ ~cfg.ample \/ \A v \in expiredLong : Get0(exitN, v) # 1 \/ Get0(evictN, v) + Get0(rejectN, v) = 1
+              \cup Flag("C14", ~e.final \/ ~cfg.cb \/ ~cfg.ample \/ \A v \in expiredLong : Get0(exitN, v) # 1 \/ Get0(evictN, v) + Get0(rejectN, v) = 1
                                    \/ vkey[v] \in delKeys \/ \E u \in DOMAIN vkey : u # v /\ vkey[u] = vkey[v],
                                "an expired entry was released without OnEvict")
               \cup FlagS("C14", ~e.final \/ \A i \in DOMAIN e.probeRaw : LET v == e.probeRaw[i][2] IN
@@ -334,14 +396,15 @@ Step(e) ==
               \cup Flag("C04", \A g \in DOMAIN pendCb : pendCb[g] = 0, "OnEvict/OnReject not followed by OnExit of the same value")
          /\ UNCHANGED <<tid, cfg, vkey, vcost, vttl, vtb, vte, accepted, refused, exitN, evictN, rejectN, 
                  exitedAt, pendCb, getSnap, ended, delBefore, cand, waitCov, dead, owed, inClear, 
-                 clearEver, closed, openCalls, getsN, dropsN, getsAll, raised, maxMax, lateAdd, polCur>>
+                 clearEver, closed, openCalls, getsN, dropsN, getsAll, raised, maxMax, keysSeen, begunN, 
+                 runN, exitDue, mcOpen, mcN, clrDirty, clrN, lateAdd, polCur>>
 
     [] e.ev = "Added" ->       \* white-box: policy.Add returned (added, number of victims, accounting afterwards)
-         /\ bad' = bad \cup Flag("C03", ~e.added \/ raised \/ e.used <= e.max, "an admission left the accounted cost above MaxCost")
-                       \cup Flag("C03", ~e.added \/ e.cost <= e.max \/ raised, "an item larger than MaxCost was admitted")
-                       \cup Flag("C09", polCur = NoPol \/ polCur.h # e.h \/ ~polCur.fits \/ (e.added /\ e.nv = 0),
+         /\ bad' = bad \cup Flag("C03", ~e.added \/ raised \/ mcOpen # 0 \/ mcN # e.mcb \/ e.used <= e.max, "an admission left the accounted cost above MaxCost")
+                       \cup Flag("C03", ~e.added \/ e.cost <= e.max \/ raised \/ mcOpen # 0 \/ mcN # e.mcb, "an item larger than MaxCost was admitted")
+                       \cup Flag("C09", polCur = NoPol \/ polCur.h # e.h \/ polCur.mc # e.mcb \/ ~polCur.fits \/ (e.added /\ e.nv = 0),
                                  "an item that fits in the remaining capacity was not admitted without eviction")
-                       \cup Flag("C09", polCur = NoPol \/ polCur.h # e.h \/ e.added \/ polCur.has \/ polCur.big \/ polCur.lower,
+                       \cup Flag("C09", polCur = NoPol \/ polCur.h # e.h \/ polCur.mc # e.mcb \/ e.added \/ polCur.has \/ polCur.big \/ polCur.lower,
                                  "an item was turned away although its estimate is not lower than the least-frequent candidate's")
          /\ polCur' = NoPol
          /\ lateAdd' = IF e.added /\ \E u \in DOMAIN vkey : HashOfK(vkey[u]) = e.h /\ vttl[u] > 0 /\ Get0(exitN, u) = 0
@@ -349,14 +412,19 @@ Step(e) ==
                         THEN lateAdd \cup {e.h} ELSE lateAdd
          /\ UNCHANGED <<tid, cfg, vkey, vcost, vttl, vtb, vte, accepted, refused, exitN, evictN, rejectN, 
                  exitedAt, pendCb, getSnap, ended, delBefore, cand, waitCov, dead, owed, inClear, 
-                 clearEver, closed, openCalls, getsN, dropsN, getsAll, raised, maxMax>>
+                 clearEver, closed, openCalls, getsN, dropsN, getsAll, raised, maxMax, keysSeen, begunN, 
+                 runN, exitDue, mcOpen, mcN, clrDirty, clrN>>
 
     [] e.ev = "PolEnter" ->    \* white-box, under the policy lock: the state the decision starts from
          /\ polCur' = [h |-> e.h, has |-> e.has, big |-> e.cost > e.max, fits |-> (~e.has /\ e.cost <= e.max /\ e.max - (e.used + e.cost) >= 0),
-                       lower |-> FALSE, inc |-> e.inc]
+                       lower |-> FALSE, inc |-> e.inc,
+                       \* MaxCost is read without the policy lock: the record is usable only if no UpdateMaxCost was in
+                       \* progress when it was taken (harness counters sampled before the read)
+                       mc |-> IF e.mcb = e.mce THEN e.mcb ELSE -1]
          /\ UNCHANGED <<tid, cfg, bad, vkey, vcost, vttl, vtb, vte, accepted, refused, exitN, evictN, rejectN, 
                  exitedAt, pendCb, getSnap, ended, delBefore, cand, waitCov, dead, owed, inClear, 
-                 clearEver, closed, openCalls, getsN, dropsN, getsAll, raised, maxMax, lateAdd>>
+                 clearEver, closed, openCalls, getsN, dropsN, getsAll, raised, maxMax, keysSeen, begunN, 
+                 runN, exitDue, mcOpen, mcN, clrDirty, clrN, lateAdd>>
 
     [] e.ev = "PolRound" ->    \* white-box, under the policy lock: one sampling round
          LET ests == {e.sample[i][2] : i \in DOMAIN e.sample}
@@ -368,14 +436,16 @@ Step(e) ==
                        \cup Flag("C09", e.inc < mn \/ e.minHits <= e.inc, "a victim has a higher estimate than the newcomer")
          /\ UNCHANGED <<tid, cfg, vkey, vcost, vttl, vtb, vte, accepted, refused, exitN, evictN, rejectN, 
                  exitedAt, pendCb, getSnap, ended, delBefore, cand, waitCov, dead, owed, inClear, 
-                 clearEver, closed, openCalls, getsN, dropsN, getsAll, raised, maxMax, lateAdd>>
+                 clearEver, closed, openCalls, getsN, dropsN, getsAll, raised, maxMax, keysSeen, begunN, 
+                 runN, exitDue, mcOpen, mcN, clrDirty, clrN, lateAdd>>
 
     [] e.ev \in {"Leak", "Panic", "Hang", "Race"} ->
          /\ bad' = bad \cup Flag("C08", FALSE, e.ev \o ": " \o e.what)
                        \cup Flag("C15", e.ev # "Leak", "goroutines of the cache are still blocked after Close")
          /\ UNCHANGED <<tid, cfg, vkey, vcost, vttl, vtb, vte, accepted, refused, exitN, evictN, rejectN, 
                  exitedAt, pendCb, getSnap, ended, delBefore, cand, waitCov, dead, owed, inClear, 
-                 clearEver, closed, openCalls, getsN, dropsN, getsAll, raised, maxMax, lateAdd, polCur>>
+                 clearEver, closed, openCalls, getsN, dropsN, getsAll, raised, maxMax, keysSeen, begunN, 
+                 runN, exitDue, mcOpen, mcN, clrDirty, clrN, lateAdd, polCur>>
 
 Next == /\ l <= Len(Trace)
         /\ l' = l + 1
